@@ -35,7 +35,7 @@ ASSUMPTIONS = [
 ]
 EXHAUSTIVE = {"quick": False, "thorough": False}
 SENSITIVE = ["classes", "builtin_chains", "nested_comp", "move_before_loop", "common_code_ifs", "dead_code", "duplicates", "dict_items", "misc_rewrites",
-             "unused", "for_append", "zip_enumerate", "swap_if_else", "imports", "constants"]
+             "unused", "for_append", "zip_enumerate", "swap_if_else", "imports", "constants", "boolean_calls", "boolean"]
 
 
 # ------------------------------------------------------------------ performing a call
@@ -310,11 +310,14 @@ def evaluate(case):
 @st.composite
 def histories(draw, rules):
     pool = []
-    for _ in range(draw(st.integers(1, 3))):
-        if draw(st.integers(0, 4)) == 0:
+    # a third of the histories draw all their inputs from ONE family: different texts that share sub-expressions
+    # (state keyed by something coarser than the text shows up as interference between such inputs)
+    one_family = [draw(st.sampled_from(SENSITIVE))] if draw(st.integers(0, 2)) == 0 else None
+    for _ in range(draw(st.integers(1, 3)) + (1 if one_family else 0)):
+        if one_family is None and draw(st.integers(0, 4)) == 0:
             pool.append(draw(programs.programs()))
         else:
-            pool.append(draw(families.family_program(names=SENSITIVE))[1])
+            pool.append(draw(families.family_program(names=one_family or SENSITIVE))[1])
     history = []
     n = draw(st.integers(3, 10))
     for _ in range(n):
